@@ -7,6 +7,8 @@
 import Mathlib.Algebra.CharZero.Defs
 import ALV.Lemmas.C20Mavg
 import ALV.Lemmas.C20Clip
+import ALV.Lemmas.C20Zcross
+import ALV.Lemmas.C20Unwrap
 import ALV.Common.Audit
 
 namespace ALV.Props.C20
@@ -127,10 +129,125 @@ theorem clip_error_iff (low high : Option K) (xs : List K) :
 
 end clip
 
+/-! ### zcross -/
+section zcross
+variable {K : Type} [Field K] [LinearOrder K] [IsStrictOrderedRing K]
+
+/-- **C20.6a** one output per input, each `0` or `1` (any hysteresis, any first_sign). -/
+theorem zcross_length_and_range (h fs : K) (xs : List K) :
+    (zcross h fs xs).length = xs.length ∧ ∀ y ∈ zcross h fs xs, y = 0 ∨ y = 1 := by
+  unfold zcross
+  split
+  · exact ⟨zphase1_length h xs, zphase1_01 h xs⟩
+  · exact ⟨zphase2_length h xs _, zphase2_01 h xs _⟩
+
+/-- **C20.6b** the two-loop state machine equals the closed characterisation: output `n` is `1`
+exactly when sample `n` lies beyond the threshold on the side opposite to the current sign, the
+current sign being the sign of the latest earlier sample outside `[-h, h]`, or `first_sign`'s
+sign when there is none (`0` = undetermined: no crossing).  For every `h ≥ 0`. -/
+theorem zcross_eq_spec (h fs : K) (h0 : 0 ≤ h) (xs : List K) :
+    zcross h fs xs = zcrossSpec h fs xs := by
+  rw [zcross_eq_from h fs h0, zcrossSpec_eq_from]
+
+/-- **C20.6c** pointwise form of 6b. -/
+theorem zcross_one_iff (h fs : K) (h0 : 0 ≤ h) (xs : List K) (n : Nat) (hn : n < xs.length) :
+    (zcross h fs xs).getD n 0 = 1 ↔ crossing h (curSign h fs (xs.take n)) (xs.getD n 0) := by
+  rw [zcross_eq_spec h fs h0]
+  unfold zcrossSpec
+  simp only [List.getD_eq_getElem?_getD, List.getElem?_map, List.getElem?_range hn, Option.map_some,
+    Option.getD_some]
+  split <;> simp_all
+
+/-- **C20.6d** at a crossing the current sign flips. -/
+theorem zcross_sign_flips (h fs : K) (h0 : 0 ≤ h) (pre : List K) (x : K)
+    (hc : crossing h (curSign h fs pre) x) :
+    curSign h fs (pre ++ [x]) = -(curSign h fs pre) := by
+  rw [curSign_snoc]
+  rcases hc with ⟨hs, hx⟩ | ⟨hs, hx⟩
+  · have ho : outside h x := Or.inr hx
+    have : x < 0 := by linarith
+    simp [ho, hs, sgn3, this]
+  · have ho : outside h x := Or.inl hx
+    have hp : 0 < x := lt_of_le_of_lt h0 hx
+    simp [ho, hs, sgn3, hp, not_lt.mpr hp.le]
+
+/-- **C20.6e** the sign is only ever changed by a sample outside the band; it starts as the sign
+of `first_sign`. -/
+theorem zcross_sign_start_and_keep (h fs : K) (pre : List K) (x : K) :
+    curSign h fs [] = sgn3 fs ∧
+    (¬ outside h x → curSign h fs (pre ++ [x]) = curSign h fs pre) ∧
+    (outside h x → curSign h fs (pre ++ [x]) = sgn3 x) := by
+  refine ⟨by simp [curSign], ?_, ?_⟩ <;> intro ho <;> rw [curSign_snoc] <;> simp [ho]
+
+end zcross
+
+/-! ### unwrap -/
+section unwrap
+variable {K : Type} [Field K] [LinearOrder K] [IsStrictOrderedRing K]
+
+/-- **C20.7a** `unwrap` equals the cumulative correction `y[n] = x[n] + Σ_{k≤n} corr(x[k]−x[k−1])`,
+`corr d = (d mod± step) − d` for `|d| > max_delta` and `0` otherwise.  Every `step > 0`, every
+`max_delta`, every input; `fl` any floor function. -/
+theorem unwrap_eq_spec (fl : K → K) (hf : IsFloor fl) (md step : K) (hs : 0 < step) (xs : List K) :
+    unwrap fl md step xs = unwrapSpec fl md step xs :=
+  unwrap_eq_unwrapSpec fl hf md step hs xs
+
+/-- **C20.7b** one output per input, and every output differs from its input by an integer
+multiple of `step`. -/
+theorem unwrap_step_multiples (fl : K → K) (hf : IsFloor fl) (md step : K) (hs : 0 < step)
+    (xs : List K) :
+    (unwrap fl md step xs).length = xs.length ∧
+    ∀ n, n < xs.length → ∃ k : ℤ, (unwrap fl md step xs).getD n 0 = xs.getD n 0 + (k : K) * step := by
+  rw [unwrap_eq_spec fl hf md step hs]
+  refine ⟨by simp [unwrapSpec], ?_⟩
+  intro n hn
+  obtain ⟨k, hk⟩ := sumL_corr_multiple fl hf md step (diffs (xs.take (n + 1)))
+  refine ⟨k, ?_⟩
+  unfold unwrapSpec
+  simp only [List.getD_eq_getElem?_getD, List.getElem?_map, List.getElem?_range hn, Option.map_some,
+    Option.getD_some]
+  rw [hk]
+
+/-- **C20.7c** a sequence with no adjacent jump above `max_delta` is left untouched (any step). -/
+theorem unwrap_identity (fl : K → K) (md step : K) (xs : List K)
+    (h : AdjAll (fun a b => ¬ |b - a| > md) xs) : unwrap fl md step xs = xs := by
+  cases xs with
+  | nil => rfl
+  | cons d0 rest =>
+    have h' : AdjAll (fun a b => ¬ absG (b - a) > md) (d0 :: rest) := by
+      simpa only [absG_eq_abs] using h
+    simp only [unwrap, sub_self, unwrapLoop_small fl md step rest d0 h']
+
+/-- **C20.7d** no adjacent output jump exceeds `max(max_delta, step/2)`. -/
+theorem unwrap_adjacent_jump (fl : K → K) (hf : IsFloor fl) (md step : K) (hs : 0 < step)
+    (xs : List K) :
+    AdjAll (fun y0 y1 => |y1 - y0| ≤ max md (step / 2)) (unwrap fl md step xs) := by
+  cases xs with
+  | nil => simp [unwrap, AdjAll]
+  | cons d0 rest =>
+    have := unwrapLoop_adj fl hf md step hs rest d0 (d0 - d0)
+    simpa [unwrap] using this
+
+/-- the floor the driver uses (`Rat.floor`) is a floor function, so 7a–7d apply to it. -/
+theorem ratFloor_isFloor : IsFloor (fun r : Rat => ((Rat.floor r : Int) : Rat)) := by
+  intro x
+  refine ⟨⟨_, rfl⟩, Rat.floor_le x, ?_⟩
+  have := Rat.lt_floor_add_one x
+  push_cast at this
+  exact this
+
+end unwrap
+
 /-! ### non-vacuity -/
 example : (0 < 4) ∧ maverageDeque 2 (0 : Rat) [1, 3, 5] = [1/2, 2, 4] := by decide +kernel
 example : clip (some (0 : Int)) (some 2) [-1, 1, 3] = .ok [0, 1, 2] := by decide
 example : ∃ e, clip (some (2 : Int)) (some 0) [1] = .error e := ⟨_, rfl⟩
+example : (0 : Rat) ≤ 1 ∧ zcross (1 : Rat) 0 [1/2, 2, -1/2, -3, 5] = [0, 0, 0, 1, 1] := by decide +kernel
+example : (0 : Rat) < 2 ∧
+    unwrap (fun r : Rat => ((Rat.floor r : Int) : Rat)) 1 2 [1, 3/2, -2, 5/4, 7] = [1, 3/2, 2, 5/4, 1] := by
+  decide +kernel
+example : AdjAll (fun a b : Rat => ¬ |b - a| > 1) [0, 1, 1/2] := by
+  simp only [AdjAll]; norm_num
 
 end ALV.Props.C20
 
